@@ -17,9 +17,9 @@ import (
 
 type sub struct{ id string }
 
-func (s *sub) ID() string                      { return s.id }
-func (s *sub) Type() message.SubscriberType    { return message.SubscriberDirect }
-func (s *sub) Send(*message.Message) error     { return nil }
+func (s *sub) ID() string                   { return s.id }
+func (s *sub) Type() message.SubscriberType { return message.SubscriberDirect }
+func (s *sub) Send(*message.Message) error  { return nil }
 
 // Contract maps a model contract name to a number.
 func Contract(c string) uint32 {
@@ -186,12 +186,12 @@ func Run(c *core.Ctx) {
 	checkHashes()
 	rng := rand.New(rand.NewSource(c.Seed))
 	type plan struct {
-		size       string
-		mcMax      int // exhaustive invariant check
-		expMax     int // exported graph
-		keepLoops  float64
-		simNum     int
-		simDepth   int
+		size      string
+		mcMax     int // exhaustive invariant check
+		expMax    int // exported graph
+		keepLoops float64
+		simNum    int
+		simDepth  int
 	}
 	p := plan{size: "S", mcMax: 3, expMax: 2, keepLoops: 0.15}
 	if !c.Quick() {
